@@ -13,6 +13,11 @@ CSetKeyOp(alg, idx) == [op |-> "CSetKey", c |-> 0, alg |-> alg, ring |-> 0, key 
 BSetKeyOp(alg, idx) == [op |-> "BSetKey", b |-> 0, alg |-> alg, ring |-> 0, key |-> idx]
 CSetCbOp(prog) == [op |-> "CSetCb", c |-> 0, prog |-> prog]
 BSetCbOp(prog) == [op |-> "BSetCb", b |-> 0, prog |-> prog]
+\* setcb(NULL, NULL): callback off;  setcb(NULL, ctx): context only
+CSetCbOff == [op |-> "CSetCb", c |-> 0]
+BSetCbOff == [op |-> "BSetCb", b |-> 0]
+CSetCbCtxOp == [op |-> "CSetCb", c |-> 0, ctxonly |-> 1]
+BSetCbCtxOp == [op |-> "BSetCb", b |-> 0, ctxonly |-> 1]
 ClockOp(t) == [op |-> "Clock", now |-> t]
 OpsOp(name) == [op |-> "Ops", name |-> name]
 VerifyOp(tok) == [op |-> "Verify", c |-> 0, tok |-> tok]
